@@ -17,6 +17,9 @@
 #ifndef VF_NDIM
 #define VF_NDIM 2
 #endif
+#ifndef VF_NXMAX
+#define VF_NXMAX 1024
+#endif
 void messerr(const char*, ...) {}
 
 extern "C" void k_faults()
@@ -73,7 +76,7 @@ extern "C" void k_meshturbo()
   VectorDouble vx0(VF_NDIM), vdx(VF_NDIM), rot(VF_NDIM * VF_NDIM);
   for (int i = 0; i < VF_NDIM; i++)
   {
-    nx[i] = vf_range(2, 1 << 10);
+    nx[i] = vf_range(2, VF_NXMAX); // the number of meshes (simplices per cell x cells) must fit an int
     x0[i] = vf_nondet_double();
     { double r = vf_nondet_double(); dx[i] = r > 0. ? r : (r < 0. ? -r : 1.); } // arbitrary mesh > 0
     vnx[i] = nx[i]; vx0[i] = x0[i]; vdx[i] = dx[i];
